@@ -32,6 +32,12 @@ def fixed_corpus():
         progs.append({"name": "ex/" + os.path.basename(f), "text": open(f).read(), "src": "repo-example"})
     for f in sorted(glob.glob(os.path.join(vlib.VERIF, "corpus", "rt", "*.grits"))):
         progs.append({"name": "rt/" + os.path.basename(f), "text": open(f).read(), "src": "probe"})
+    # the directed typing corpora: most of these programs are ill-typed and never run; should a changed typechecker accept one, it is run like any
+    # accepted program (type safety is about whatever the typechecker lets through)
+    for d in ("typing", "tc"):
+        for f in sorted(glob.glob(os.path.join(vlib.VERIF, "corpus", d, "*.grits"))):
+            if os.path.getsize(f) < 20000:
+                progs.append({"name": "%s/%s" % (d, os.path.basename(f)), "text": open(f).read(), "src": "directed-typing"})
     return progs
 
 
